@@ -1,6 +1,7 @@
 package main
 
 import (
+	"strings"
 	"fmt"
 	"go/token"
 	"go/types"
@@ -419,43 +420,87 @@ func r044(c *Ctx) {
 			}
 			c.ob(rule, "updateRequestServiceMap/ranges-over-all-services", mu.Pos(), okSvc, true, "the services contributing bindings must be every entry of ServiceMap.services")
 			// value: append(existing, &pathBinding{pathPrefix: elem of PathPrefixes(full range), service: svc})
-			okVal := false
-			if app, ok := mu.Value.(*ssa.Call); ok {
-				if bi, ok := app.Call.Value.(*ssa.Builtin); ok && bi.Name() == "append" {
-					for _, e := range appendedElems(app) {
-						alloc, ok := e.(*ssa.Alloc)
+			// (the value may be built up over the prefix loop in a local and stored once per host: every append in the chain
+			// that leads to the stored value is examined; the chain starts from what the table held for that host, possibly
+			// grown, or from the empty list)
+			isBinding := func(e ssa.Value) bool {
+				alloc, ok := e.(*ssa.Alloc)
+				if !ok {
+					return false
+				}
+				var gotP, gotS bool
+				for _, r := range *alloc.Referrers() {
+					fa, ok := r.(*ssa.FieldAddr)
+					if !ok {
+						continue
+					}
+					f, _, _ := fieldOfAddr(fa)
+					for _, rr := range *fa.Referrers() {
+						st, ok := rr.(*ssa.Store)
 						if !ok {
 							continue
 						}
-						var gotP, gotS bool
-						for _, r := range *alloc.Referrers() {
-							fa, ok := r.(*ssa.FieldAddr)
-							if !ok {
-								continue
-							}
-							f, _, _ := fieldOfAddr(fa)
-							for _, rr := range *fa.Referrers() {
-								st, ok := rr.(*ssa.Store)
-								if !ok {
-									continue
-								}
-								if f == ppF {
-									if ps, full := fullRangeElem(st.Val); full {
-										chain, base := fieldPath(ps)
-										gotP = len(chain) == 2 && chain[0] == optF && chain[1] == prefF && base == svc
-									}
-								}
-								if f == svcF {
-									gotS = st.Val == svc
-								}
+						if f == ppF {
+							if ps, full := fullRangeElem(resolve(st.Val)); full {
+								chain, base := fieldPath(resolve(ps))
+								gotP = len(chain) == 2 && chain[0] == optF && chain[1] == prefF && base == svc
 							}
 						}
-						okVal = gotP && gotS
+						if f == svcF {
+							gotS = st.Val == svc
+						}
 					}
 				}
+				return gotP && gotS
 			}
+			nApp := 0
+			seenV := map[ssa.Value]bool{}
+			var chainOK func(v ssa.Value, d int) bool
+			chainOK = func(v ssa.Value, d int) bool {
+				v = resolve(v)
+				if seenV[v] {
+					return true
+				}
+				seenV[v] = true
+				if d > 8 {
+					return false
+				}
+				if isEmptySliceLit(v) || isNilConst(v) {
+					return true
+				}
+				switch x := v.(type) {
+				case *ssa.Lookup:
+					return x.X == ssa.Value(table) && resolve(x.Index) == resolve(mu.Key)
+				case *ssa.Phi:
+					for _, e := range x.Edges {
+						if !chainOK(e, d+1) {
+							return false
+						}
+					}
+					return true
+				case *ssa.Call:
+					if bi, ok := x.Call.Value.(*ssa.Builtin); ok && bi.Name() == "append" {
+						els := appendedElems(x)
+						if len(els) == 0 {
+							return false
+						}
+						for _, e := range els {
+							if !isBinding(e) {
+								return false
+							}
+						}
+						nApp++
+						return chainOK(x.Call.Args[0], d+1)
+					}
+					if strings.HasPrefix(calleeName(x.Common()), "slices.Grow") || strings.HasPrefix(calleeName(x.Common()), "slices.Clip") {
+						return chainOK(x.Call.Args[0], d+1)
+					}
+				}
+				return false
+			}
+			okVal := chainOK(mu.Value, 0) && nApp >= 1
 			c.ob(rule, "updateRequestServiceMap/binding-per-prefix-of-the-service", mu.Pos(), okVal, true, "each binding must pair every element of service.options.PathPrefixes with that same service")
-			c.ob(rule, "updateRequestServiceMap/binding-unconditional", mu.Pos(), len(dominatingCondsOtherThanLoop(mu)) == 0, true, "no condition may exclude a host x prefix pair from the table")
+			c.ob(rule, "updateRequestServiceMap/binding-unconditional", mu.Pos(), len(condsOtherThanEmptiness(dominatingCondsOtherThanLoop(mu))) == 0, true, "no condition may exclude a host x prefix pair from the table")
 		}
 	}
 	c.ob(rule, "updateRequestServiceMap/fills-table", upd.Pos(), nUpd >= 1, false, "")
